@@ -52,7 +52,7 @@ def run(rep):
     rep.bounds = {'backend': 'HashMap only', 'keys': 'one statistic per item type and value form', 'draws': 'two warm-up and two sampling draws', 'vector length': 2}
     rep.assumptions += ['std::collections::HashMap is a string-keyed map whose iteration order is unspecified: maps created one after the other iterate in opposite orders (insertion / reverse insertion) and every query is run with both assignments', 'Value / ItemType pairs are those a derived Storable can emit (C16)']
     rep.outside += ['Arrow, ndarray and Zarr encodings and files; of the CSV backend only the column-name / element-index mapping of multi-dimensional variables is covered', 'cross-backend agreement', 'store_warmup', 'multi-chain assembly in the sampler']
-    parts(rep, [lambda: buffers(rep, mir, L), lambda: chain_storage(rep, mir, L), lambda: unique_names(rep, mir, L), lambda: csv_index(rep, mir, L), lambda: trace_finalize(rep, mir, L)])
+    parts(rep, [lambda: buffers(rep, mir, L), lambda: chain_storage(rep, mir, L), lambda: unique_names(rep, mir, L), lambda: csv_index(rep, mir, L), lambda: trace_finalize(rep, mir, L), lambda: csv_special_values(rep, mir, L)])
 
 def buffers(rep, mir, L):
     """HashMapValue::new(t).push(v): no panic and exactly the value(s) appended, for every declared item type and every value form it can receive"""
@@ -225,3 +225,39 @@ def trace_finalize(rep, mir, L):
     rep.paths += n
     if bad: rep.violated('C14.e HashMap trace assembly', 'hashmap.trace_finalize', 'HashMapTraceStorage::finalize: %s' % (bad[0],), model={'problems': [str(b)[:200] for b in bad[:6]]})
     else: rep.holds('C14.e HashMapTraceStorage::finalize (0-3 chains, every Ok/Err pattern): results in chain order, the first per-chain error handed on, no error otherwise (%d paths)' % n)
+
+
+def csv_special_values(rep, mir, L):
+    """CsvChainStorage::format_value on floating-point cells: NaN is printed as NA, +infinity as Inf, -infinity as -Inf (for f64 and f32, scalars and
+    the first element of vectors), and only finite values go through the numeric formatter; booleans print as 1 / 0"""
+    from ..alg import FP64Alg
+    fns = [f for n, f in mir.fns.items() if n.endswith('::format_value') and 'csv' in n]
+    if len(fns) != 1: rep.unknown('C14.f CsvChainStorage::format_value not found'); return
+    fn = fns[0].parse(); bad = []; n = 0
+    for variant in ('ScalarF64', 'ScalarF32', 'F64', 'F32', 'ScalarBool'):
+        A = FP64Alg(); vm = VM(mir, A); install_misc(vm)
+        vm.add_model(r'^<str as ToString>::to_string$|^<&str as ToString>::to_string$|^<str as ToOwned>::to_owned$', lambda vm, m, c, a: ret(m, deref_val(vm, m, a[0])))
+        vm.add_model(r'^<(u64|i64|usize) as ToString>::to_string$', lambda vm, m, c, a: ret(m, Opaque('integer text')))
+        en = vm.enums['Value']; x = A.fresh('x'); b = z3.Bool('b')
+        if variant.startswith('Scalar'): val = Enum(en.index(variant), variant, (b if variant == 'ScalarBool' else x,), 'Value')
+        else: val = Enum(en.index(variant), variant, (Seq([x, A.fresh('x_other')]),), 'Value')
+        m = Machine(); st = L.make('CsvChainStorage', {f: (3 if f == 'precision' else Opaque(f)) for f in L.fields('CsvChainStorage')})
+        try: outs = vm.run(fn, [Ref(m.alloc(st)), Ref(m.alloc(val))], m)
+        except Exception as e:
+            rep.unknown('C14.f format_value %s' % variant, '%s: %s' % (type(e).__name__, str(e)[:200])); continue
+        n += len(outs); rep.absorb_vm(vm)
+        for (m2, k, v) in outs:
+            if k != 'ret': bad.append((variant, 'format_value panics', str(v)[:100])); continue
+            text = v.s if isinstance(v, Str) else None
+            sol = z3.Solver(); sol.set('timeout', 30000); sol.add(*m2.pc)
+            if variant == 'ScalarBool':
+                sol.add(z3.Not(z3.And(text in ('1', '0'), b == (text == '1')))) if text in ('1', '0') else sol.add(z3.BoolVal(True))
+            else:
+                isnan, ispinf, isninf = z3.fpIsNaN(x.v), z3.And(z3.fpIsInf(x.v), z3.fpIsPositive(x.v)), z3.And(z3.fpIsInf(x.v), z3.fpIsNegative(x.v))
+                want = {'NA': isnan, 'Inf': ispinf, '-Inf': isninf}
+                if text in want: sol.add(z3.Not(want[text]))
+                else: sol.add(z3.Or(isnan, ispinf, isninf))          # anything else (the numeric formatter) must only see finite values
+            if sol.check() != z3.unsat: bad.append((variant, 'prints %r for a value it does not denote' % (text if text is not None else 'a formatted number'), str(sol.model())[:120]))
+    rep.paths += n
+    if bad: rep.violated('C14.f CSV special values', 'csv.special', 'CsvChainStorage::format_value: %s' % (bad[0],), model={'problems': [str(b)[:200] for b in bad[:6]]})
+    elif n: rep.holds('C14.f CsvChainStorage::format_value: NaN -> NA, +inf -> Inf, -inf -> -Inf for f64 and f32 cells (scalar and first vector element), the numeric formatter only sees finite values, booleans print 1 / 0 (%d paths)' % n)
